@@ -183,6 +183,31 @@ theorem atomic_protocol_write_error_keeps_old (s0 : FS) (hq : Quiet s0) (fd : Na
   exact ⟨⟨sts, ht, hall⟩, sN, hr, hq'⟩
 
 open PV.FS in
+/-- **kill anywhere + restart preserves old-or-new.**  pprof's start-up is the identity on the settings
+directory (`Op.restart`: only the dead process's handles disappear; a leftover temp file of any
+length is never promoted).  So: kill the save after ANY number `k` of its system calls (inside a
+`write`: at any byte, see the crash images), start the web UI again — the settings file reads as it
+did at the kill and every crash image is still the complete old or the complete new content.
+That the REAL start-up is the identity is checked by the harness (restart after every injected
+crash, restart under strace judged by `fs.accepts` with old = new = the file as the crash left it). -/
+theorem crash_restart_old_or_new (s0 : FS) (hq : Quiet s0) (fd : Nat) (tmp f : Str) (hne : tmp ≠ f)
+    (hfree : aget s0.dir tmp = none) (chunks : List Bytes) (k : Nat)
+    (hk : k ≤ (atomicWriteOps fd tmp f chunks).length) :
+    ∃ sk s', run s0 ((atomicWriteOps fd tmp f chunks).take k) = some sk ∧ step sk .restart = some s' ∧
+      content s' f = content sk f ∧
+      ∀ c ∈ crashContents s' f, c = content s0 f ∨ c = some chunks.flatten :=
+  atomic_kill_restart s0 fd tmp f chunks hq hne hfree k hk
+
+open PV.FS in
+-- a "recovery" that promotes a leftover temp file is rejected by the checker: kill after the first
+-- chunk, restart, rename the partial temp file over the settings file
+example :
+    let f := b!"settings.json"; let t := b!"settings.json.tmp1"; let s0 := ofFiles [(f, b!"old")]
+    accepts f (some b!"old") b!"newer" true s0 [.open 3 t true false true, .write 3 b!"ne", .restart] = none ∧
+    (accepts f (some b!"old") b!"newer" true s0
+      [.open 3 t true false true, .write 3 b!"ne", .restart, .rename t f]).isSome = true := by decide
+
+open PV.FS in
 /-- **`os.WriteFile` is not atomic** (the pinned `writeSettings`): whatever non-empty old and new
 contents, after the FIRST system call (`open … O_TRUNC`) the settings file is empty — that is what
 a reader sees, what a killed process leaves behind, and it is neither old nor new. -/
